@@ -723,4 +723,10 @@ def extractAll (w : Writer) : List Entry → Prog (List St × Writer)
     let (ss, w) ← extractAll w es
     pure (s :: ss, w)
 
+/-- A whole extraction: every entry, then `archive_write_close`. -/
+def extractArchive (fl : XFlags) (es : List Entry) : Prog (List St × St) := do
+  let (ss, w) ← extractAll { flags := fl } es
+  let (s, _) ← close w
+  pure (ss, s)
+
 end LA.Xtr
